@@ -270,8 +270,10 @@ class Partitioned(struct.PyTreeNode, AxisMetadata[A]):
     axis_name = self._get_partition_name(params)
     names = list(self.names)
     if index < 0:
-      # a negative axis counts from the end of the array *with* the new axis.
-      index += len(names) + 1
+      # a negative axis counts from the end of the array *with* the new axis
+      # (the boxed value is already stacked; names may be shorter than its rank).
+      ndim = getattr(self.value, 'ndim', None)
+      index += ndim if ndim is not None else len(names) + 1
     while len(names) < index:
       names.append(None)  # type: ignore
     names.insert(index, axis_name)  # type: ignore
@@ -280,6 +282,10 @@ class Partitioned(struct.PyTreeNode, AxisMetadata[A]):
   def remove_axis(self, index: int, params: dict[Any, Any]) -> 'Partitioned[A]':
     axis_name = self._get_partition_name(params)
     names = list(self.names)
+    if index < 0:
+      # counts from the end of the (still stacked) value, not of the names
+      ndim = getattr(self.value, 'ndim', None)
+      index += ndim if ndim is not None else len(names)
     assert names.pop(index) == axis_name
     return self.replace(names=tuple(names))
 
